@@ -53,9 +53,190 @@ func c10RandReq(rng *Rng, hostile bool) c10Req {
 	return q
 }
 
+// cliCase builds the argument list of one c10cli case.
+func cliCase(max, wait, mcd, ppol int, steps []cliStep) []string {
+	a := []string{"c10cli", itoa(max), itoa(wait), itoa(mcd), itoa(ppol), itoa(len(steps))}
+	for _, st := range steps {
+		a = append(a, cliStepTokens(st)...)
+	}
+	return a
+}
+
+func cliR(host int, m string, fault int) cliStep {
+	return cliStep{kind: "R", host: host, cls: m == "gc" || m == "pc", q: c10Req{post: m == "p" || m == "pc", fault: fault}}
+}
+func cliH(host int, m string, fault int) cliStep {
+	st := cliR(host, m, fault)
+	st.kind = "H"
+	return st
+}
+
+// cliHeldFaults: what a withheld request may be answered with (no stall: the call has a long read timeout)
+var cliHeldFaults = []int{fOK, fOK, fOK, fOKClose, fOKThenClose, fOKThenRST, fCloseFirst, fCloseMidHdr, fCloseMidBdy, fGarbage}
+
+// cliRandSteps draws n steps over {R, H, U, A}; with noStall the faults that consume real time are left out
+// (MaxConnDuration runs measure connection age in real time).  Every H gets its U unless `leave`.
+func cliRandSteps(rng *Rng, n int, noStall, ages, hostile bool, nheld *int) []cliStep {
+	var steps []cliStep
+	var open []int
+	for len(steps) < n {
+		host := 0
+		if rng.Intn(4) == 0 {
+			host = 1 + rng.Intn(c10Hosts-1)
+		}
+		switch k := rng.Intn(12); {
+		case k < 6:
+			q := c10RandReq(rng, hostile)
+			for noStall && (q.fault == fStall || q.fault == fStallMidBdy) {
+				q.fault = rng.Intn(nFaults)
+			}
+			steps = append(steps, cliStep{kind: "R", host: host, q: q, cls: rng.Intn(6) == 0})
+		case k < 9:
+			q := c10RandReq(rng, false)
+			q.fault = cliHeldFaults[rng.Intn(len(cliHeldFaults))]
+			steps = append(steps, cliStep{kind: "H", host: host, q: q, cls: rng.Intn(6) == 0})
+			open = append(open, *nheld)
+			*nheld++
+		case k < 11:
+			if len(open) > 0 {
+				i := rng.Intn(len(open))
+				steps = append(steps, cliStep{kind: "U", host: open[i]})
+				open = append(open[:i], open[i+1:]...)
+			}
+		default:
+			if ages {
+				steps = append(steps, cliStep{kind: "A"})
+			}
+		}
+	}
+	return steps
+}
+
+func genC10CliFast(tier string, rng *Rng) [][]string {
+	thorough := tier == "thorough"
+	var cases [][]string
+	meths := []string{"g", "p", "gc", "pc"}
+	// (a) exhaustive: request on a fresh connection, the connection grows too old, a second request
+	// retires it (or asks for close itself), a third request follows; peer policy x methods x
+	// fault of the retiring exchange x MaxConns; mcd=1 (every pick is too old) and mcd=2 (real time)
+	for _, mcd := range []int{1, 2} {
+		for ppol := 0; ppol < 3; ppol++ {
+			for _, m2 := range meths {
+				for _, m3 := range []string{"g", "p"} {
+					for _, f2 := range []int{fOK, fOKClose, fOKThenClose} {
+						for max := 1; max <= 2; max++ {
+							for wait := 0; wait < 2; wait++ {
+								if wait == 1 && mcd == 2 && !thorough {
+									continue
+								}
+								steps := []cliStep{cliR(0, "p", fOK), {kind: "A"}, cliR(0, m2, f2), cliR(0, m3, fOK)}
+								cases = append(cases, cliCase(max, wait, mcd, ppol, steps))
+							}
+						}
+					}
+				}
+			}
+		}
+	}
+	// (b) exhaustive: one call in flight, a second call to the same / another host, release, again:
+	// MaxConns 1..2 x wait x fault of the withheld call x method
+	for max := 1; max <= 2; max++ {
+		for wait := 0; wait < 2; wait++ {
+			for _, f := range []int{fOK, fOKClose, fOKThenClose, fOKThenRST, fCloseFirst, fCloseMidHdr, fCloseMidBdy, fGarbage} {
+				for _, m := range meths {
+					for other := 0; other < 2; other++ {
+						steps := []cliStep{cliH(0, m, f), cliR(other, "g", fOK), cliH(0, "g", fOK), {kind: "U", host: 0}, cliR(0, "p", fOK), {kind: "U", host: 1}, cliR(0, "g", fOK)}
+						cases = append(cases, cliCase(max, wait, 0, 0, steps))
+					}
+				}
+			}
+		}
+	}
+	// (c) random scripts over {R, H, U, A} on three hosts
+	n := 260
+	if thorough {
+		n = 5000
+	}
+	for i := 0; i < n; i++ {
+		mcd := []int{0, 0, 1, 2, 2}[rng.Intn(5)]
+		nheld := 0
+		steps := cliRandSteps(rng, 3+rng.Intn(6), mcd == 2, mcd == 2, i%5 == 4 && mcd != 2, &nheld)
+		cases = append(cases, cliCase(1+rng.Intn(3), rng.Intn(2), mcd, rng.Intn(3), steps))
+	}
+	return cases
+}
+
+// genC10CliTick: scripts with one janitor tick (10 s of real time each; they all run side by side).
+func genC10CliTick(tier string, rng *Rng) [][]string {
+	var cases [][]string
+	T := cliStep{kind: "T"}
+	U := func(k int) cliStep { return cliStep{kind: "U", host: k} }
+	// directed: at the tick the host's connections are all in use / one is idle / none is left / other hosts differ
+	for max := 1; max <= 2; max++ {
+		for wait := 0; wait < 2; wait++ {
+			cases = append(cases,
+				cliCase(max, wait, 0, 0, []cliStep{cliH(0, "g", fOK), T, cliR(0, "g", fOK), cliR(0, "p", fOK), U(0), cliR(0, "g", fOK)}),
+				cliCase(max, wait, 0, 0, []cliStep{cliR(0, "g", fOK), T, cliR(0, "g", fOK), cliH(0, "g", fOK), cliR(0, "p", fOK), U(0)}),
+				cliCase(max, wait, 0, 0, []cliStep{cliR(0, "g", fOKClose), cliH(1, "p", fOK), T, cliR(0, "g", fOK), cliR(1, "g", fOK), U(0), cliR(1, "g", fOK)}),
+			)
+		}
+	}
+	cases = append(cases,
+		cliCase(2, 0, 0, 0, []cliStep{cliH(0, "g", fOK), cliH(0, "p", fOKClose), cliR(0, "g", fOK), T, cliR(0, "g", fOK), U(1), cliR(0, "g", fOK), U(0)}),
+		cliCase(2, 1, 2, 1, []cliStep{cliR(0, "p", fOK), cliH(0, "g", fOK), T, cliR(0, "p", fOK), cliR(0, "p", fOK), U(0), cliR(0, "p", fOK)}),
+		cliCase(1, 0, 2, 0, []cliStep{cliR(0, "p", fOK), T, cliR(0, "p", fOK), cliR(0, "p", fOK)}),
+	)
+	n := 24
+	if tier == "thorough" {
+		n = 160
+	}
+	for i := 0; i < n; i++ {
+		mcd := []int{0, 0, 1, 2}[rng.Intn(4)]
+		nheld := 0
+		steps := cliRandSteps(rng, 1+rng.Intn(4), mcd == 2, false, false, &nheld)
+		steps = append(steps, T)
+		steps = append(steps, cliRandSteps(rng, 1+rng.Intn(5), mcd == 2, false, false, &nheld)...)
+		cases = append(cases, cliCase(1+rng.Intn(2), rng.Intn(2), mcd, rng.Intn(3), steps))
+	}
+	return cases
+}
+
+// runCases runs the cases on `workers` goroutines and returns the outputs in case order.
+func runCases(cases [][]string, workers int) [][]string {
+	res := make([][]string, len(cases))
+	var wg sync.WaitGroup
+	next := make(chan int)
+	for w := 0; w < workers; w++ {
+		wg.Add(1)
+		go func() {
+			defer wg.Done()
+			for i := range next {
+				res[i] = safe(ops[cases[i][0]], cases[i][1:])
+			}
+		}()
+	}
+	for i := range cases {
+		next <- i
+	}
+	close(next)
+	wg.Wait()
+	return res
+}
+
 func genC10Cases(tier string, rng *Rng) {
 	thorough := tier == "thorough"
 	var cases [][]string
+	// (6) Client-level scripts with a janitor tick take 10 s of real time each: they are drawn first
+	// (own generator state, derived from the run's) and run beside everything else
+	tickRng := NewRng(rng.U64())
+	cliRng := NewRng(rng.U64())
+	tickCases := genC10CliTick(tier, tickRng)
+	var tickRes [][]string
+	tickDone := make(chan struct{})
+	go func() {
+		tickRes = runCases(tickCases, 64)
+		close(tickDone)
+	}()
 	seq := func(max, wait int, qs []c10Req) {
 		a := []string{"c10seq", itoa(max), itoa(wait), itoa(len(qs))}
 		for _, q := range qs {
@@ -160,4 +341,10 @@ func genC10Cases(tier string, rng *Rng) {
 	}
 	cases = append(cases, []string{"c10stale", "40", "1"})
 	runOpsParallel(cases, 6)
+	// (7) Client-level scripts without a tick (host-client map, MaxConnDuration, calls kept in flight)
+	runOpsParallel(genC10CliFast(tier, cliRng), 32)
+	<-tickDone
+	for i := range tickCases {
+		emit(tickCases[i], tickRes[i])
+	}
 }
